@@ -88,7 +88,9 @@ class Engine(ExprMixin, CallMixin, StmtMixin):
         log_events = kw.pop("log_events", None)
         cuts = kw.pop("cuts", ())
         defines = kw.pop("defines", ())
+        shards = kw.pop("shards", 1)
         c = Contract(key, **kw)
+        c.shards = shards
         c.defines = list(defines)
         c.cuts = list(cuts)
         c.ghost_exit = list(ghost_exit)
